@@ -2,3 +2,5 @@
 # value/index arrays aborts the forked sub-check (reported as a violation of the current case).
 FLAGS_C19 := -fsanitize=address -fno-omit-frame-pointer
 LIBS_C19  := -fsanitize=address
+
+NOFILL_C19 := 1
